@@ -176,3 +176,41 @@ class Timer:
 
     def s(self):
         return round(time.time() - self.t0, 2)
+
+
+def shrink_text(s, still_fails, budget=400):
+    """delta debugging on a string: remove lines, then chunks, then single characters while
+    [still_fails](candidate) stays true. Deterministic; at most [budget] predicate calls."""
+    calls = [0]
+
+    def ok(c):
+        if calls[0] >= budget:
+            return False
+        calls[0] += 1
+        try:
+            return bool(still_fails(c))
+        except Exception:  # noqa
+            return False
+    # lines
+    changed = True
+    while changed and calls[0] < budget:
+        changed = False
+        lines = s.split("\n")
+        for i in range(len(lines)):
+            c = "\n".join(lines[:i] + lines[i + 1:])
+            if c != s and ok(c):
+                s, changed = c, True
+                break
+    # chunks of decreasing size
+    n = max(1, len(s) // 2)
+    while n >= 1 and calls[0] < budget:
+        i, changed = 0, False
+        while i < len(s):
+            c = s[:i] + s[i + n:]
+            if c != s and ok(c):
+                s, changed = c, True
+            else:
+                i += n
+        if not changed:
+            n //= 2
+    return s
